@@ -21,7 +21,7 @@ CHECKS = {
          "All recorded probe values (Computed / Bytes / Array over this.x, this._.x, _root, _params, _index, mode flags) in nests of the seven scope/repeat constructs with transparent wrappers are compared by TLC with the frame discipline of the specification, in all three operations."),
  "C08": ("TLC trace validation of every recorded position, Tell/RawCopy offset and inner value in delimiter nests against Sem/Streams; TLC model checking of the Sem-driven abstract machine over a bounded program universe (MC_CAM) whose sessions are then stepped through the real library (spec -> code)", "4.C08",
          "Delimiter nests to depth 4 at start offsets 0..3 with trivial member codecs: every enter/leave position (absolute coordinates), every inner greedy value and every Tell/RawCopy/Pointer observation recorded from the real library must equal the specification's."),
- "C09": ("TLC replay of recorded behaviours through the pushdown machine CAM.tla (PeekRestores, PointerRestores, alternative/element/union clauses) + trace validation at recovering nodes; TLC model checking of the Sem-driven abstract machine over a bounded program universe (MC_CAM) whose sessions are then stepped through the real library (spec -> code); repository tests recorded and replayed through the machine (thorough)", "4.C09",
+ "C09": ("TLC replay of recorded behaviours through the pushdown machine CAM.tla (PeekRestores, PointerRestores, alternative/element/union clauses) + trace validation at recovering nodes; TLC model checking of the Sem-driven abstract machine over a bounded program universe (MC_CAM) whose sessions are then stepped through the real library (spec -> code); repository tests (core, compiler, gallery formats) recorded and replayed through the machine", "4.C09",
          "Machine-level clauses evaluated by TLC at every leave step of every recorded behaviour (no member semantics needed), plus Sem conformance of positions and values at Peek/Pointer/Select/GreedyRange/Union nodes, over all short inputs for sampled programs and random longer ones, start offsets 0..2."),
  "C13": ("TLC trace validation at constrained nodes (Const, validators, Enum/FlagsEnum/Mapping, Error inside recovering constructs), one-byte domains exhausted", "4.C13",
          "Acceptance, value and bytes in both directions for every one-byte input and value and all label spellings, and ExplicitError never absorbed, compared by TLC with Sem."),
@@ -31,7 +31,7 @@ CHECKS = {
          "Design level: TLC enumerates every expression tree to the depth bound over the full operator table and checks that the rendering, re-parsed under Python's precedence rules, denotes the same function in all small environments (and must find the counter-example under the snapshot's rule). Conformance: the same trees built through the real overloads, evaluated by the library and by Python's own eval of the repr."),
  "C12": ("TLC predicate C12Equiv on recorded pairs (same call on both sides of each documented law and operator spelling)", "4.C12",
          "Every law instance (widths, signedness, swapping, aliases, macros, enum classes vs keywords, display wrappers, operator spellings) is run on both sides through the real factories on all short inputs over the boundary alphabet and on in- and out-of-range values; TLC evaluates extensional equality on each recorded pair."),
- "C14": ("TLC replay through CAM.tla (RawCopy clauses) + TLC predicates C14Verifies / C14Detects / C14SameBytes; hashes uninterpreted with logged graphs; TLC model checking of the Sem-driven abstract machine over a bounded program universe (MC_CAM) whose sessions are then stepped through the real library (spec -> code); repository tests replayed through the machine (thorough)", "4.C14",
+ "C14": ("TLC replay through CAM.tla (RawCopy clauses) + TLC predicates C14Verifies / C14Detects / C14SameBytes; hashes uninterpreted with logged graphs; TLC model checking of the Sem-driven abstract machine over a bounded program universe (MC_CAM) whose sessions are then stepped through the real library (spec -> code); repository tests (core, compiler, gallery formats) replayed through the machine", "4.C14",
          "RawCopy extents, offsets and data at every RawCopy leave step of every recorded behaviour (substreams, non-zero offsets); checksums built then parsed; every single-bit corruption of covered region and digest must raise ChecksumError."),
  "C15": ("TLC trace validation against independent definitions of XOR (key cycled), bit rotation of groups, byte/bit reversal; compression codecs uninterpreted", "4.C15",
          "Exhaustive-by-grid keys and rotation amounts x groups (sampled in quick), swapped constructs of size 1..16, four stdlib codecs; built bytes and the inner construct's view on parse are compared by TLC with the definitions in Codecs.tla."),
@@ -39,7 +39,7 @@ CHECKS = {
          "Design level: every access history (any order, repetitions) to the bound over member lists mixing fixed, keyword-sized, length-prefixed and unsizable members: LazyEqualsEager, AccessIsInvisible, SameFinalPosition, CacheSound. Conformance: all permutations for <= 4 members and random histories with repetitions, by name / attribute / index / iteration / slice, performed on the real lazy objects with value and stream position recorded after every access; lazies read by later siblings during the surrounding parse compared with their eager twin."),
  "C17": ("TLC model checking of Session.tla (pool sharing members, two threads, all interleavings at boundary granularity; memoising member as negative control) + TLC predicates C17Same / C17Entry / C17Offset / C17Frozen on recorded histories, forced schedules and entry points", "4.C17",
          "Design level: Pure, Repeatable, Frozen over all interleavings of calls on a pool sharing members. Conformance: random call histories (parse/build/sizeof/compile, succeeding and failing) with every repetition compared and object-graph digests before/after each call; two-thread interleavings forced through the recording hook acting as a gate, 8-thread free-running stress; all entry points."),
- "C18": ("TLC replay through CAM.tla (clause C18.path at every failing leave step, C18.path-kept) + TLC predicate C18Trunc on truncation sessions; repository tests recorded and replayed through the machine (thorough)", "4.C18",
+ "C18": ("TLC replay through CAM.tla (clauses C18.path / C18.path-shortened at every failing leave step, C18.path-kept) + TLC predicate C18Trunc on truncation sessions; repository tests (core, compiler, gallery formats) recorded and replayed through the machine", "4.C18",
          "Every failing recorded behaviour (all truncation offsets of canonical encodings of nested named structures, every member made unbuildable in turn, random inputs) is replayed by TLC: the path equals the operation prefix plus the Renamed names on the stack where the error was created and is kept while propagating; truncation at j names the members whose recorded extent contains j."),
  "C20": ("TLC model checking of the container heap model (spec/Containers.tla, Hex.tla; MC_C20: equivalence laws, copy independence, hexundump o hexdump) + TLC replay (TraceC20) of operation histories executed on real containers with full three-view projections", "4.C20",
          "Design level: all operation histories to the bound on heaps with public / private / method-shadowing keys and nested containers: Eq reflexive, symmetric, transitive, order- and private-insensitive; shallow copies independent at top level, deep copies and pickle round trips disjoint. Conformance: random histories (set / setattr / del / pop / clear / update / append / copy / deepcopy / pickle with every protocol / search) on real objects, after every step the whole object graph projected through attributes, keys and iteration with identities and equality results, replayed by TLC on the model; hexdump text compared character by character and read back."),
